@@ -1222,7 +1222,124 @@ fn module_get_function(repo: &Path) -> R {
     let mut out = format!(
         "/-- the key `Module::get_function(name)` looks up in `Module.functions` (src/codegen/mod.rs: the first `let name = …;`) -/\ndef get_function_key (name : Name) : Name := Id.run\n {key}\n\n"
     );
-    out.push_str("/-- `Module::get_function::<F>(name)` (src/codegen/mod.rs): one look-up of the generated key, then the signature check; the handle is the looked-up entry's function (structure checked by the translator) -/\ndef Module_get_function (self : Module) (want : Sig) (name : Name) : RResult TypedFunc FnErr :=\n get_function_at self.functions want (get_function_key name)\n\n");
+    // ---- the exits of the function, in source order (statement by statement; anything that is
+    // not one of these forms is an extraction failure):
+    //   look-up   `let function_info = self.functions.get(&name).ok_or_else(|| FunctionRetrievalError::V {…})?;`
+    //   no-sig    `let Some(sig) = &sig else { return Err(FunctionRetrievalError::V {…}) };`
+    //   params    `F::check_args(…, &sig.parameter_types)?;`
+    //   return    `check_roto_type_reflect::<F::Return>(…, &sig.return_type).map_err(|e| FunctionRetrievalError::V(…))?;`
+    //   plain `let x = <expr without `?`/`return`>;`        (sig, id, func_ptr)
+    //   done      tail `Ok(TypedFunc {…})`
+    fn ts(t: &impl ToTokens) -> String {
+        t.to_token_stream().to_string().replace(' ', "")
+    }
+    fn variant_in(tokens: &str) -> Result<&'static str, String> {
+        let vs: Vec<&str> = tokens.match_indices("FunctionRetrievalError::").map(|(i, m)| &tokens[i + m.len()..]).collect();
+        match vs.as_slice() {
+            [v] if v.starts_with("DoesNotExist") => Ok("FnErr.doesNotExist"),
+            [v] if v.starts_with("TypeMismatch") => Ok("FnErr.typeMismatch"),
+            _ => Err(format!("Module::get_function: cannot tell which FunctionRetrievalError is built in `{tokens}`")),
+        }
+    }
+    struct Exits(usize, usize);
+    impl<'ast> Visit<'ast> for Exits {
+        fn visit_expr_try(&mut self, t: &'ast syn::ExprTry) {
+            self.0 += 1;
+            syn::visit::visit_expr_try(self, t);
+        }
+        fn visit_expr_return(&mut self, r: &'ast syn::ExprReturn) {
+            self.1 += 1;
+            syn::visit::visit_expr_return(self, r);
+        }
+    }
+    let mut ex = Exits(0, 0);
+    ex.visit_block(&f.block);
+    if (ex.0, ex.1) != (3, 1) {
+        return Err(format!("Module::get_function: expected three `?` and one `return` (found {} and {})", ex.0, ex.1));
+    }
+    let mut missing = None; // error of the failed look-up
+    let mut nosig = None;
+    let mut checks: Vec<(&str, &str)> = vec![]; // (which part of the signature, error) in source order
+    let mut done = false;
+    for (i, st) in stmts.iter().enumerate() {
+        if done {
+            return Err("Module::get_function: statement after the final `Ok(TypedFunc {…})`".into());
+        }
+        match st {
+            Stmt::Local(l) if i == names[0].0 => {
+                let _ = l;
+            }
+            Stmt::Local(l) => {
+                let pat = ts(&l.pat);
+                let init = l.init.as_ref().ok_or("Module::get_function: let without initialiser")?;
+                let e = ts(&init.expr);
+                if let Some((_, els)) = &init.diverge {
+                    let body = ts(els);
+                    if pat != "Some(sig)" || e != "&sig" || !body.starts_with("{returnErr(FunctionRetrievalError::") {
+                        return Err(format!("Module::get_function: unsupported let-else `{pat} = {e}`"));
+                    }
+                    if missing.is_none() || !checks.is_empty() {
+                        return Err("Module::get_function: the `signature` test is not between the look-up and the type checks".into());
+                    }
+                    nosig = Some(variant_in(&body)?);
+                } else if pat == "function_info" {
+                    if !e.starts_with("self.functions.get(&name).ok_or_else(||") || !e.ends_with("?") || missing.is_some() {
+                        return Err(format!("Module::get_function: unsupported look-up `{e}`"));
+                    }
+                    missing = Some(variant_in(&e)?);
+                } else {
+                    let mut x = Exits(0, 0);
+                    x.visit_expr(&init.expr);
+                    let ok = match pat.as_str() {
+                        "sig" => e == "&function_info.signature",
+                        "id" => e == "function_info.id",
+                        _ => (x.0, x.1) == (0, 0) && !e.contains("self.functions"),
+                    };
+                    if !ok {
+                        return Err(format!("Module::get_function: unsupported `let {pat} = {e}`"));
+                    }
+                }
+            }
+            Stmt::Expr(Expr::Try(t), Some(_)) => {
+                let e = ts(&t.expr);
+                if nosig.is_none() {
+                    return Err("Module::get_function: a type check before the `signature` test".into());
+                }
+                if e.starts_with("F::check_args(") && e.ends_with(",&sig.parameter_types)") {
+                    // the error is built inside `check_args` (src/runtime): a `TypeMismatch` (hand)
+                    checks.push(("params", "FnErr.typeMismatch"));
+                } else if e.starts_with("check_roto_type_reflect::<F::Return>(") && e.contains(",&sig.return_type,).map_err(|e|") || e.contains(",&sig.return_type).map_err(|e|") && e.starts_with("check_roto_type_reflect::<F::Return>(") {
+                    let clo = &e[e.find(".map_err(").unwrap()..];
+                    checks.push(("ret", variant_in(clo)?));
+                } else {
+                    return Err(format!("Module::get_function: unsupported `?` statement `{e}`"));
+                }
+            }
+            Stmt::Expr(e, None) if i + 1 == stmts.len() => {
+                if !ts(e).starts_with("Ok(TypedFunc{func:func_ptr,") {
+                    return Err(format!("Module::get_function: the tail is not `Ok(TypedFunc {{ func: func_ptr, … }})`: {}", ts(e)));
+                }
+                done = true;
+            }
+            other => {
+                return Err(format!("Module::get_function: unsupported statement: {}", ts(other)));
+            }
+        }
+    }
+    let missing = missing.ok_or("Module::get_function: no look-up statement")?;
+    let nosig = nosig.ok_or("Module::get_function: no `let Some(sig) = &sig else …`")?;
+    let mut kinds: Vec<&str> = checks.iter().map(|c| c.0).collect();
+    kinds.sort();
+    if !done || kinds != ["params", "ret"] {
+        return Err(format!("Module::get_function: expected one parameter check and one return-type check (found {kinds:?})"));
+    }
+    let mut body = String::from("(RResult.Ok ⟨get_function_key name, info⟩)");
+    for (what, err) in checks.iter().rev() {
+        body = format!("(if info.sig.{what} = want.{what} then {body} else RResult.Err {err})");
+    }
+    out.push_str(&format!(
+        "/-- `Module::get_function::<F>(name)` (src/codegen/mod.rs).  GENERATED statement by statement: ONE look-up of the generated key (`None` ↦ the error of the `ok_or_else` closure); `signature: None` (compiler-generated glue; such entries are not in the model's table) ↦ `{nosig}`; then the checks of the parameter types and of the return type in source order, each with the error its `?` propagates (the one of `check_args` is built inside that function: hand); the handle is the looked-up entry's function (`get_finalized_function(function_info.id)`, shape-checked) -/\ndef Module_get_function (self : Module) (want : Sig) (name : Name) : RResult TypedFunc FnErr :=\n match Table.find self.functions (get_function_key name) with\n | none => RResult.Err {missing}\n | some info => {body}\n\n"
+    ));
     Ok(out)
 }
 
